@@ -187,9 +187,10 @@ def ideal_primitives(repo: Repo, R, rule: str):
     prims = pf.hdl21_primitives(repo)
     reader = pf.reader_primitives(repo)
     fx = repo.func(F_EXPORT, "ProtoExporter.export_instance")
-    emap = pf.dict_in_function(fx, "prim_map")
-    if emap is None:
-        raise AnalysisError("idiom-unknown: prim_map")
+    er = pf.dict_by_key(fx, "inst.of.prim.name")
+    if er is None:
+        raise AnalysisError("idiom-unknown: ideal-primitive name table (`<table>[inst.of.prim.name]`) not found as a dict literal in the exporter")
+    emap = er[0]
     fep = repo.func(F_EXPORT, "export_primitive_params")
     rename = None
     for n in au.walk_no_nested(fep.node):
